@@ -511,6 +511,6 @@ func init() {
 		Assume: []string{"errors are compared by existence, not text; integer overflow, float printing beyond short decimals, side effects in the right operand of &&, dict iteration order and index / attribute / slice assignment used as a value are outside the alphabet (undefined by docs)"},
 		Enumerate: c02Enumerate,
 		Run:       c02Run,
-		Budget:    map[string]time.Duration{"quick": 170 * time.Second, "thorough": 40 * time.Minute},
+		Budget:    map[string]time.Duration{"quick": 400 * time.Second, "thorough": 40 * time.Minute},
 	})
 }
